@@ -127,12 +127,6 @@ def type(array):
     elif isinstance(array, (bool, np.bool_)):
         return ak.types.PrimitiveType("bool")
 
-    elif isinstance(array, numbers.Integral):
-        return ak.types.PrimitiveType("int64")
-
-    elif isinstance(array, numbers.Real):
-        return ak.types.PrimitiveType("float64")
-
     elif isinstance(
         array,
         (
@@ -153,6 +147,12 @@ def type(array):
         ),
     ):
         return ak.types.PrimitiveType(type.dtype2primitive[array.dtype.type])
+
+    elif isinstance(array, numbers.Integral):
+        return ak.types.PrimitiveType("int64")
+
+    elif isinstance(array, numbers.Real):
+        return ak.types.PrimitiveType("float64")
 
     elif isinstance(array, ak.highlevel.Array):
         return ak._util.highlevel_type(array.layout, array.behavior, True)
